@@ -3,6 +3,7 @@ CONSTANTS
   Events <- TEvents
   RegEvents <- TEvents
   Prios <- TPrios
+  Spawns <- TSpawns
   MaxListeners = 100
 INVARIANT DispatchCorrect
 INVARIANT CacheCoherent
